@@ -148,6 +148,14 @@ func crossProbes(rng *rand.Rand, s Sem) []reqSpec {
 		}
 		return p.Host
 	}
+	// the TEXT of a listed pattern sent as Origin (`https://example.com:*`, `https://*.example.com`): a pattern is not an origin
+	for i, p := range s.Pats {
+		if raw := p.String(); i < 8 && !seen[raw] {
+			seen[raw] = true
+			out = append(out, reqSpec{Method: "GET", H: http.Header{hOrigin: {raw}}},
+				reqSpec{Method: "OPTIONS", H: http.Header{hOrigin: {raw}, hACRM: {"GET"}}})
+		}
+	}
 	for i, p := range s.Pats {
 		for j, q := range s.Pats {
 			if i != j && p.Host == q.Host && p.Wild == q.Wild && (p.Scheme != q.Scheme || p.Port != q.Port) {
@@ -218,11 +226,18 @@ func historyProbes(rng *rand.Rand, s Sem) []reqSpec {
 		return reqSpec{Method: "OPTIONS", H: h}
 	}
 	get := func(o string) reqSpec { return reqSpec{Method: "GET", H: http.Header{hOrigin: {o}}} }
-	return []reqSpec{
+	var multi []reqSpec
+	if len(s.HNames) >= 2 {
+		// a SUCCESSFUL multi-line list, then its first line alone (and the reverse): what was approved or reflected for one
+		// must not be replayed for the other
+		hs := sortedCopy(s.HNames)
+		multi = []reqSpec{pf(a, hs[0], hs[1]), pf(a, hs[0]), pf(a, hs[1]), pf(a, hs[0], hs[1]), pf(a, hs[0]+","+hs[1]), pf(a, hs[0])}
+	}
+	return append(multi, []reqSpec{
 		pf(a, first), pf(a, first, "x-zzz-not-allowed"), pf(a, first, first), pf(a, all), pf(a, all, "x-zzz-not-allowed"), pf(a, first, ""),
 		pf(a, "x-zzz-not-allowed"), pf(a, first),
 		get(a), get(other), pf(a), pf(other), get(a), pf(other, first), get(other), get(a),
-	}
+	}...)
 }
 
 // ---------------------------------------------------------------- junk requests (C03 / C16 / C17)
